@@ -21,7 +21,7 @@ def toSpec : LineShape → Grammar.Shape
 
 /-! ### the classes and the shape of the two generated terms -/
 
-def keyCls : Cls := ⟨true, [.space, .range 40 40, .range 41 41]⟩
+def keyCls : Cls := ⟨true, [.range 40 41, .space]⟩
 def spCls : Cls := ⟨false, [.space]⟩
 def nspCls : Cls := ⟨true, [.space]⟩
 /-- `(?P<i>[^\s()]+)` -/
